@@ -17,8 +17,10 @@ from fontTools.designspaceLib import (
     AxisDescriptor,
     DesignSpaceDocument,
     InstanceDescriptor,
+    RangeAxisSubsetDescriptor,
     RuleDescriptor,
     SourceDescriptor,
+    VariableFontDescriptor,
 )
 from fontTools.ufoLib import UFOReader, UFOWriter
 
@@ -143,6 +145,11 @@ def build_designspace(fam, fonts, names=True, filenames=None):
                 loc[ax.name] = ax.map_forward(inst["user"][ax.name])
         d.designLocation = loc
         doc.addInstance(d)
+    for vf in fam.get("variable_fonts", []):
+        d = VariableFontDescriptor(name=vf["name"])
+        d.axisSubsets = [RangeAxisSubsetDescriptor(name=a) for a in vf["axes"]]
+        d.lib = _copy(vf.get("lib", {}))
+        doc.addVariableFont(d)
     for k, v in fam.get("dslib", {}).items():
         doc.lib[k] = _copy(v)
     return doc
